@@ -194,8 +194,23 @@ class Family:
         self.pool, self.ix = [], {}
         self.tris, self.objs, self.tags = [], [], []
         self.cell_objs = {}
+        self._by_id = {}          # id(cell) -> (cell kept alive, index, fingerprint): cells are immutable in
+                                  # correct code; the fingerprint (value identities) guards the shortcut
+
+    @staticmethod
+    def _finger(c):
+        return (c.period_start, c.period_end, c.evaluation_date, getattr(c, "prev_evaluation_date", None),
+                id(c.metadata), tuple((k, id(v)) for k, v in c.values.items()))
 
     def cell_ix(self, c):
+        hit = self._by_id.get(id(c))
+        if hit is not None and hit[0] is c and hit[2] == self._finger(c):
+            return hit[1]
+        i = self._cell_ix(c)
+        self._by_id[id(c)] = (c, i, self._finger(c))
+        return i
+
+    def _cell_ix(self, c):
         w = w_cell(c)
         k = json.dumps(w, sort_keys=True)
         if k not in self.ix:
@@ -221,15 +236,28 @@ def b_or_none(res):
     return bool(v)
 
 
-def evaluate(ctx, fam, pairs, sets=True, mems=(), cell_pairs=(), metas=(), meta_pairs=(), hashes=True):
-    """run the implementation on the family; returns (request, impl record)"""
+def dump_ix(fam, t):
+    return [fam.cell_ix(c) for c in t.cells]
+
+
+def evaluate(ctx, fam, pairs, sets=True, mems=(), cell_pairs=(), metas=(), meta_pairs=(), hashes=True,
+             p_union=0.2, p_twice=0.15, force_union=()):
+    """run the implementation on the family; returns (request, impl record).
+    SEQUENCE checks (state carried between calls): a share `p_twice` of the pairs is evaluated a second
+    time on the same objects — after the first `a & b` / `a - b` result has been mutated in place — and must
+    answer identically; every membership query is asked twice; `hash(t)` is taken before all operations and
+    again after them; the operands' cells are dumped again at the end."""
     objs = fam.objs
+    rng = ctx.rng
+    seq_fail = []
+    force_union = set(force_union)
     hv = [call(hash, t) if hashes else ("err", "skipped") for t in objs]
     plist = [(i, k) for i in range(len(objs)) for k in range(len(objs))] if pairs == "all" else list(pairs)
     impl = {"eq": [], "hashEq": [], "le": [], "disj": []}
     raised = {"eq": [], "le": [], "disj": [], "inter": [], "diff": []}
     if sets:
-        impl["inter"], impl["diff"] = [], []
+        impl["inter"], impl["diff"], impl["union"], impl["xor"] = [], [], [], []
+        raised["union"], raised["xor"] = [], []
     bad_len = []
     for n, (x, y) in enumerate(plist):
         a, b = objs[x], objs[y]
@@ -256,9 +284,64 @@ def evaluate(ctx, fam, pairs, sets=True, mems=(), cell_pairs=(), metas=(), meta_
                 else:
                     impl[name].append(None)
                     raised[name].append((n, (st, v if st == "err" else type(v).__name__)))
+            do_union = (x, y) in force_union or rng.random() < p_union
+            for name, fn in (("union", lambda: a | b), ("xor", lambda: a ^ b)):
+                if not do_union:
+                    impl[name].append(None)
+                    continue
+                st, v = call(fn)
+                if st == "ok" and isinstance(v, Triangle):
+                    impl[name].append(dump_ix(fam, v))
+                    if len(v) != len(v.cells):
+                        bad_len.append((n, name))
+                else:
+                    impl[name].append(None)
+                    raised[name].append((n, (st, v if st == "err" else type(v).__name__)))
+            if do_union:
+                ctx.count("ops/union+xor evaluated")
+        # ---- sequence: the same questions again on the same objects -----------------------------
+        if rng.random() < p_twice:
+            ctx.count("sequence/pairs evaluated twice")
+            first = {k: impl[k][-1] for k in impl if k != "hashEq"}
+            if sets:
+                # mutate the RESULTS of the first calls in place (their own cell lists), then ask again
+                for fn in (lambda: a & b, lambda: a - b):
+                    st, r = call(fn)
+                    if st == "ok" and isinstance(r, Triangle):
+                        call(lambda: (r.cells.reverse(), r.cells.clear()))
+            again = {"eq": b_or_none(call(lambda: a == b)), "le": b_or_none(call(lambda: a <= b)),
+                     "disj": b_or_none(call(a.isdisjoint, b))}
+            if sets:
+                for name, fn in (("inter", lambda: a & b), ("diff", lambda: a - b)):
+                    st, v = call(fn)
+                    again[name] = dump_ix(fam, v) if st == "ok" and isinstance(v, Triangle) else None
+                if first["union"] is not None:
+                    for name, fn in (("union", lambda: a | b), ("xor", lambda: a ^ b)):
+                        st, v = call(fn)
+                        again[name] = dump_ix(fam, v) if st == "ok" and isinstance(v, Triangle) else None
+            for k, v2 in again.items():
+                if first[k] != v2 and not seq_fail:
+                    seq_fail.append((f"`{k}` answers differently when asked twice on the same objects "
+                                     f"(after the first results of `&`/`-` were mutated in place)", n,
+                                     {"first": first[k], "second": v2}))
+            for z in (x, y):
+                if dump_ix(fam, objs[z]) != fam.tris[z] and not seq_fail:
+                    seq_fail.append(("an operand changed while `==`, `<=`, `&`, `-`, `|`, `^` were evaluated / their "
+                                     "results mutated", n, {"operand": "a" if z == x else "b"}))
     impl_mem = []
     for ci, ti in mems:
         impl_mem.append(b_or_none(call(lambda: fam.cell_objs[ci] in objs[ti])))
+        again = b_or_none(call(lambda: fam.cell_objs[ci] in objs[ti]))
+        if again != impl_mem[-1] and not seq_fail:
+            seq_fail.append(("`cell in triangle` answers differently when asked twice", None,
+                             {"cell": fam.pool[ci], "triangle": fam.wire(ti), "first": impl_mem[-1], "second": again}))
+    # hash(t) again, after every operation above (a cache filled meanwhile must not change it)
+    if hashes:
+        for z, t in enumerate(objs):
+            h2 = call(hash, t)
+            if h2 != hv[z] and not seq_fail:
+                seq_fail.append(("hash(t) before and after `==`/`in`/`<=`/`&`/`-` differ", None,
+                                 {"triangle": fam.wire(z), "tag": fam.tags[z]}))
     impl_ceq, impl_chash, cell_raise = [], [], []
     for x, y in cell_pairs:
         cx, cy = fam.cell_objs[x], fam.cell_objs[y]
@@ -278,7 +361,7 @@ def evaluate(ctx, fam, pairs, sets=True, mems=(), cell_pairs=(), metas=(), meta_
            "cellPairs": [list(p) for p in cell_pairs], "implCellEq": impl_ceq, "implCellHashEq": impl_chash,
            "metas": [w_meta(m) for m in metas], "metaPairs": [list(p) for p in meta_pairs],
            "implMetaEq": impl_meq, "implMetaHashEq": impl_mhash}
-    rec = {"plist": plist, "impl": impl, "raised": raised, "bad_len": bad_len, "hash": hv,
+    rec = {"plist": plist, "impl": impl, "raised": raised, "bad_len": bad_len, "hash": hv, "seq_fail": seq_fail,
            "mems": list(mems), "implMem": impl_mem, "cell_pairs": list(cell_pairs), "implCellEq": impl_ceq,
            "implCellHashEq": impl_chash, "cell_raise": cell_raise, "metas": metas, "meta_pairs": list(meta_pairs),
            "implMetaEq": impl_meq, "implMetaHashEq": impl_mhash}
@@ -292,6 +375,8 @@ CLAUSE_TEXT = {
     "disj": "`a.isdisjoint(b)` must say whether no cell of b is in a",
     "inter": "`a & b` must consist of exactly the cells of b that are in a",
     "diff": "`a - b` must consist of exactly the cells of a that are not in b",
+    "union": "`a | b` must hold every cell of a and of b and nothing else, in canonical order (exactly both when disjoint)",
+    "xor": "`a ^ b` must consist of exactly the cells of a not in b and of b not in a, in canonical order",
     "mem": "`cell in triangle` must say whether the triangle holds an identical cell",
     "cellEq": "`c1 == c2` must be True exactly when the two cells have identical contents",
     "cellHash": "equal cells must have equal hashes",
@@ -311,12 +396,14 @@ def judge(ctx, fam, req, rec, out):
         return {"family": fam.label, "a_tag": fam.tags[x], "b_tag": fam.tags[y], "a": fam.wire(x), "b": fam.wire(y)}
 
     # 1. spec verdicts on the implementation's answers
-    for clause in ("eq", "hash", "le", "disj", "inter", "diff"):
+    for text, n, detail in rec["seq_fail"]:
+        ctx.fail(text, pair_case(n) if n is not None else {"family": fam.label}, detail)
+    for clause in ("eq", "hash", "le", "disj", "inter", "diff", "union", "xor"):
         for n, v in enumerate(spec.get(clause, [])):
             if v is False:
                 key = "hashEq" if clause == "hash" else clause
                 got = impl[key][n]
-                if clause in ("inter", "diff"):
+                if clause in ("inter", "diff", "union", "xor"):
                     got = [fam.pool[k] for k in got]
                 ctx.fail(CLAUSE_TEXT[clause], pair_case(n), {"implementation_answer": got})
                 break
@@ -342,10 +429,13 @@ def judge(ctx, fam, req, rec, out):
                 break
     # 2. the implementation raised where it must answer
     for clause, lst in rec["raised"].items():
-        for n, r in lst[:1]:
+        for n, r in lst:
+            if clause in ("union", "xor") and isinstance(model[clause][n], str):
+                continue        # operands of different classes (Cell vs CumulativeCell): the constructor refuses, as modelled
             ctx.fail(f"`{clause}` raised instead of answering ({r[1]})", pair_case(n))
+            break
     for n, name in rec["bad_len"][:1]:
-        ctx.fail(f"len / iter of `a {'&' if name == 'inter' else '-'} b` disagree with its cells", pair_case(n))
+        ctx.fail(f"len / iter of `a {dict(inter='&', diff='-', union='|', xor='^')[name]} b` disagree with its cells", pair_case(n))
     for n, v in enumerate(rec["implMem"]):
         if v is None:
             ci, ti = rec["mems"][n]
@@ -362,7 +452,8 @@ def judge(ctx, fam, req, rec, out):
                 ctx.disagree("hashability of a triangle", pair_case(n), "unhashable", "hashable")
             break
     # 3. model vs implementation (spec holds or is silent): correspondence of the model
-    for key, mkey in (("eq", "eq"), ("le", "le"), ("disj", "disj"), ("inter", "inter"), ("diff", "diff")):
+    for key, mkey in (("eq", "eq"), ("le", "le"), ("disj", "disj"), ("inter", "inter"), ("diff", "diff"),
+                      ("union", "union"), ("xor", "xor")):
         for n, got in enumerate(impl.get(key, [])):
             if got is not None and n < len(model[mkey]) and model[mkey][n] != got:
                 if not ctx.spec_failures:
@@ -555,6 +646,35 @@ def variant_family(ctx, rng, idx, full, tmpdir):
         noeq.append(fam.add(Triangle(cs[1:]), "suffix"))
     for tag, x in extension_cells(cs, rng):
         noeq.append(fam.add(Triangle(cs + [x]), tag))
+    # -- parts of the triangle re-united: interleaving halves, prefix/suffix, slices in reverse order -----
+    force_union, must_equal, reunited = set(), [], []
+    coords = {json.dumps([w_cell(c)[k] for k in ("m", "ps", "pe", "ev", "prev")], sort_keys=True) for c in cs}
+    if len(cs) >= 2 and len(coords) == len(cs):
+        k = rng.randrange(1, len(cs))
+        splits = [("even", cs[0::2], "odd", cs[1::2]), ("prefix", cs[:k], "suffix", cs[k:])]
+        metas_ = []
+        for c in cs:
+            if c.metadata not in metas_:
+                metas_.append(c.metadata)
+        if len(metas_) > 1:
+            splits.append(("last-slice", [c for c in cs if c.metadata == metas_[-1]],
+                           "other-slices", [c for c in cs if c.metadata != metas_[-1]]))
+        for na, ca, nb, cb in splits:
+            ia, ib = fam.add(Triangle(ca), "part:" + na), fam.add(Triangle(cb), "part:" + nb)
+            noeq += [ia, ib]
+            force_union |= {(ia, ib), (ib, ia)}
+            pa, pb = fam.objs[ia], fam.objs[ib]
+            for tag, fn in ((f"{na}|{nb}", lambda: pa | pb), (f"{nb}|{na}", lambda: pb | pa),
+                            (f"{na}^{nb}", lambda: pa ^ pb), (f"{na}+{nb}", lambda: pa + pb),
+                            (f"(t&{na})|(t-{na})", lambda: (t & pa) | (t - pa))):
+                st, r = call(fn)
+                if st == "ok" and isinstance(r, Triangle):
+                    ri = fam.add(r, "reunited:" + tag)
+                    reunited.append(ri)
+                    must_equal.append((ri, tag, len(r)))
+                    ctx.count("variants/reunited")
+                else:
+                    ctx.fail(f"re-uniting the parts of a triangle raised: {tag} ({r})", {"t": fam.wire(base)})
     # -- single edits ---------------------------------------------------------------------------
     positions = range(len(cs)) if full else [rng.randrange(len(cs))]
     edited_cells = []
@@ -603,7 +723,21 @@ def variant_family(ctx, rng, idx, full, tmpdir):
     for p, cj in edited_cells:
         ci = fam.cell_ix(cs[p])
         cell_pairs += [(ci, cj), (cj, ci)]
-    req, rec = evaluate(ctx, fam, pairs, sets=True, mems=mems, cell_pairs=cell_pairs)
+    pairs += sorted(force_union)
+    for ri in reunited:
+        pairs += [(base, ri), (ri, base), (reunited[0], ri), (ri, rng.choice(copies))]
+    req, rec = evaluate(ctx, fam, pairs, sets=True, mems=mems, cell_pairs=cell_pairs, force_union=force_union)
+    # the parts re-united ARE the triangle (Properties/C02: union_of_parts, union_comm, union_eq_add): judged on the
+    # implementation's own `==`, `hash`, `len` — no dump involved
+    ans = {p: n for n, p in enumerate(rec["plist"])}
+    for ri, tag, ln in must_equal:
+        for x, y in ((base, ri), (ri, base)):
+            n = ans[(x, y)]
+            if rec["impl"]["eq"][n] is not True or rec["impl"]["hashEq"][n] is False or ln != len(cs):
+                ctx.fail(f"parts re-united ({tag}) must be == the triangle, hash alike and have its length",
+                         {"t": fam.wire(base), "reunited": fam.wire(ri), "tag": tag},
+                         {"==": rec["impl"]["eq"][n], "hash equal": rec["impl"]["hashEq"][n], "len": ln, "len(t)": len(cs)})
+                break
     ctx.count(f"variants/kind={type(cs[0]).__name__}")
     ctx.count(f"variants/vkind={vkind}")
     ctx.count(f"variants/cells={len(cs)}")
@@ -730,8 +864,8 @@ def set_keyed_checks(ctx, fam, rec, out):
 def correspondence(ctx):
     rng = ctx.rng
     drv = common.Driver("drv_c02")
-    n_full = 300 if ctx.thorough else 30
-    n_sampled = 1700 if ctx.thorough else 120
+    n_full = 300 if ctx.thorough else 24
+    n_sampled = 1700 if ctx.thorough else 100
     n_uni = 30 if ctx.thorough else 8
     k_uni = 6 if ctx.thorough else 4
     n_meta = 120 if ctx.thorough else 25
